@@ -1,6 +1,8 @@
 """Per-harness options (solver schedule, axiom groups, stretch obligations, fixed validation vectors)."""
 OPTS = {
     'C02': {},
+    'C15': {'*': {'pi_symbolic': True, 'feas_timeout': 1},
+            'c15_from_arc_parallel_tolerance': {'pi_symbolic': True, 'feas_timeout': 1, 'vectors': [[1.0, 0.0, 0.0, 2.0, 0.0, 0.0], [1.0, 0.0, 0.0, -1.0, 0.0, 0.0], [0.5, 0.25, 0.0, 1.0, 0.5, 0.0]]}},
     'C10': {'*': {'pi_symbolic': True}},
     'C09': {'c09_quaternion': {'feas_timeout': 1}, 'c09_decomposed_quat_rh': {'feas_timeout': 1}, 'c09_decomposed_quat_lh': {'feas_timeout': 1}},
     'C11': {
